@@ -1,0 +1,246 @@
+//! Verification-only (`--cfg repe_verif`): stand-ins for `tokio::net::{TcpStream,
+//! TcpListener}` (and the `tokio_tungstenite` connect helper) that behave
+//! exactly like the real ones for every real address, and additionally let a
+//! test harness hand in an in-memory byte stream under the reserved loopback
+//! address `127.254.77.1:<slot>`. `async_client.rs`, `async_server.rs` and
+//! `websocket_client.rs` import these names instead of tokio's under the cfg;
+//! nothing here is compiled in a normal build.
+
+use std::collections::HashMap;
+use std::io;
+use std::net::{IpAddr, Ipv4Addr, SocketAddr};
+use std::pin::Pin;
+use std::sync::Mutex;
+use std::task::{Context, Poll};
+use tokio::io::{AsyncRead, AsyncWrite, ReadBuf};
+use tokio::sync::mpsc;
+
+pub use tokio::net::ToSocketAddrs;
+
+/// Reserved address: connecting / binding here uses harness-registered streams.
+pub const MEM_IP: Ipv4Addr = Ipv4Addr::new(127, 254, 77, 1);
+
+pub trait Io: AsyncRead + AsyncWrite + Unpin + Send + 'static {}
+impl<T: AsyncRead + AsyncWrite + Unpin + Send + 'static> Io for T {}
+
+static STREAMS: Mutex<Option<HashMap<u16, Box<dyn Io>>>> = Mutex::new(None);
+static LISTENERS: Mutex<Option<HashMap<u16, mpsc::UnboundedReceiver<Box<dyn Io>>>>> =
+    Mutex::new(None);
+
+/// Harness: the next `TcpStream::connect(("127.254.77.1", slot))` returns `io`.
+pub fn register_stream(slot: u16, io: impl Io) {
+    STREAMS
+        .lock()
+        .unwrap()
+        .get_or_insert_with(HashMap::new)
+        .insert(slot, Box::new(io));
+}
+
+/// Harness: `TcpListener::bind(("127.254.77.1", slot))` accepts whatever is sent here.
+pub fn register_listener(slot: u16) -> mpsc::UnboundedSender<Box<dyn Io>> {
+    let (tx, rx) = mpsc::unbounded_channel();
+    LISTENERS
+        .lock()
+        .unwrap()
+        .get_or_insert_with(HashMap::new)
+        .insert(slot, rx);
+    tx
+}
+
+fn mem_slot(addrs: &[SocketAddr]) -> Option<u16> {
+    addrs
+        .first()
+        .filter(|a| a.ip() == IpAddr::V4(MEM_IP))
+        .map(|a| a.port())
+}
+
+pub enum TcpStream {
+    Real(tokio::net::TcpStream),
+    Mem(Box<dyn Io>),
+}
+
+impl TcpStream {
+    pub async fn connect<A: ToSocketAddrs>(addr: A) -> io::Result<TcpStream> {
+        let addrs: Vec<SocketAddr> = tokio::net::lookup_host(addr).await?.collect();
+        if let Some(slot) = mem_slot(&addrs) {
+            return STREAMS
+                .lock()
+                .unwrap()
+                .as_mut()
+                .and_then(|m| m.remove(&slot))
+                .map(TcpStream::Mem)
+                .ok_or_else(|| io::Error::new(io::ErrorKind::ConnectionRefused, "no stream registered"));
+        }
+        tokio::net::TcpStream::connect(&addrs[..])
+            .await
+            .map(TcpStream::Real)
+    }
+
+    pub fn set_nodelay(&self, nodelay: bool) -> io::Result<()> {
+        match self {
+            TcpStream::Real(s) => s.set_nodelay(nodelay),
+            TcpStream::Mem(_) => Ok(()),
+        }
+    }
+
+    pub fn into_split(self) -> (tcp::OwnedReadHalf, tcp::OwnedWriteHalf) {
+        match self {
+            TcpStream::Real(s) => {
+                let (r, w) = s.into_split();
+                (tcp::OwnedReadHalf(Box::new(r)), tcp::OwnedWriteHalf(Box::new(w)))
+            }
+            TcpStream::Mem(s) => {
+                let (r, w) = tokio::io::split(s);
+                (tcp::OwnedReadHalf(Box::new(r)), tcp::OwnedWriteHalf(Box::new(w)))
+            }
+        }
+    }
+}
+
+impl AsyncRead for TcpStream {
+    fn poll_read(self: Pin<&mut Self>, cx: &mut Context<'_>, buf: &mut ReadBuf<'_>) -> Poll<io::Result<()>> {
+        match self.get_mut() {
+            TcpStream::Real(s) => Pin::new(s).poll_read(cx, buf),
+            TcpStream::Mem(s) => Pin::new(s).poll_read(cx, buf),
+        }
+    }
+}
+
+impl AsyncWrite for TcpStream {
+    fn poll_write(self: Pin<&mut Self>, cx: &mut Context<'_>, buf: &[u8]) -> Poll<io::Result<usize>> {
+        match self.get_mut() {
+            TcpStream::Real(s) => Pin::new(s).poll_write(cx, buf),
+            TcpStream::Mem(s) => Pin::new(s).poll_write(cx, buf),
+        }
+    }
+    fn poll_flush(self: Pin<&mut Self>, cx: &mut Context<'_>) -> Poll<io::Result<()>> {
+        match self.get_mut() {
+            TcpStream::Real(s) => Pin::new(s).poll_flush(cx),
+            TcpStream::Mem(s) => Pin::new(s).poll_flush(cx),
+        }
+    }
+    fn poll_shutdown(self: Pin<&mut Self>, cx: &mut Context<'_>) -> Poll<io::Result<()>> {
+        match self.get_mut() {
+            TcpStream::Real(s) => Pin::new(s).poll_shutdown(cx),
+            TcpStream::Mem(s) => Pin::new(s).poll_shutdown(cx),
+        }
+    }
+}
+
+pub mod tcp {
+    use super::*;
+
+    pub struct OwnedReadHalf(pub(super) Box<dyn AsyncRead + Unpin + Send>);
+    pub struct OwnedWriteHalf(pub(super) Box<dyn AsyncWrite + Unpin + Send>);
+
+    impl AsyncRead for OwnedReadHalf {
+        fn poll_read(mut self: Pin<&mut Self>, cx: &mut Context<'_>, buf: &mut ReadBuf<'_>) -> Poll<io::Result<()>> {
+            Pin::new(&mut self.0).poll_read(cx, buf)
+        }
+    }
+    impl AsyncWrite for OwnedWriteHalf {
+        fn poll_write(mut self: Pin<&mut Self>, cx: &mut Context<'_>, buf: &[u8]) -> Poll<io::Result<usize>> {
+            Pin::new(&mut self.0).poll_write(cx, buf)
+        }
+        fn poll_flush(mut self: Pin<&mut Self>, cx: &mut Context<'_>) -> Poll<io::Result<()>> {
+            Pin::new(&mut self.0).poll_flush(cx)
+        }
+        fn poll_shutdown(mut self: Pin<&mut Self>, cx: &mut Context<'_>) -> Poll<io::Result<()>> {
+            Pin::new(&mut self.0).poll_shutdown(cx)
+        }
+    }
+}
+
+pub enum TcpListener {
+    Real(tokio::net::TcpListener),
+    Mem(u16, tokio::sync::Mutex<mpsc::UnboundedReceiver<Box<dyn Io>>>),
+}
+
+impl TcpListener {
+    pub async fn bind<A: ToSocketAddrs>(addr: A) -> io::Result<TcpListener> {
+        let addrs: Vec<SocketAddr> = tokio::net::lookup_host(addr).await?.collect();
+        if let Some(slot) = mem_slot(&addrs) {
+            return LISTENERS
+                .lock()
+                .unwrap()
+                .as_mut()
+                .and_then(|m| m.remove(&slot))
+                .map(|rx| TcpListener::Mem(slot, tokio::sync::Mutex::new(rx)))
+                .ok_or_else(|| io::Error::new(io::ErrorKind::AddrNotAvailable, "no listener registered"));
+        }
+        tokio::net::TcpListener::bind(&addrs[..])
+            .await
+            .map(TcpListener::Real)
+    }
+
+    pub async fn accept(&self) -> io::Result<(TcpStream, SocketAddr)> {
+        match self {
+            TcpListener::Real(l) => l.accept().await.map(|(s, a)| (TcpStream::Real(s), a)),
+            TcpListener::Mem(slot, rx) => match rx.lock().await.recv().await {
+                Some(io) => Ok((TcpStream::Mem(io), SocketAddr::new(IpAddr::V4(MEM_IP), *slot))),
+                None => Err(io::Error::new(io::ErrorKind::BrokenPipe, "listener closed")),
+            },
+        }
+    }
+
+    pub fn local_addr(&self) -> io::Result<SocketAddr> {
+        match self {
+            TcpListener::Real(l) => l.local_addr(),
+            TcpListener::Mem(slot, _) => Ok(SocketAddr::new(IpAddr::V4(MEM_IP), *slot)),
+        }
+    }
+}
+
+/// Stand-ins for the `tokio_tungstenite` names `websocket_client.rs` imports.
+#[cfg(feature = "websocket")]
+pub mod ws {
+    use super::*;
+    use tokio_tungstenite::tungstenite::handshake::client::Response;
+    use tokio_tungstenite::tungstenite::protocol::WebSocketConfig;
+    use tokio_tungstenite::tungstenite::{self, client::IntoClientRequest};
+    use tokio_tungstenite::WebSocketStream;
+
+    pub use super::TcpStream;
+
+    /// Transparent wrapper so the client's type aliases keep their shape
+    /// (plain `ws://` only under the verification cfg).
+    pub struct MaybeTlsStream<S>(pub S);
+
+    impl<S: AsyncRead + Unpin> AsyncRead for MaybeTlsStream<S> {
+        fn poll_read(mut self: Pin<&mut Self>, cx: &mut Context<'_>, buf: &mut ReadBuf<'_>) -> Poll<io::Result<()>> {
+            Pin::new(&mut self.0).poll_read(cx, buf)
+        }
+    }
+    impl<S: AsyncWrite + Unpin> AsyncWrite for MaybeTlsStream<S> {
+        fn poll_write(mut self: Pin<&mut Self>, cx: &mut Context<'_>, buf: &[u8]) -> Poll<io::Result<usize>> {
+            Pin::new(&mut self.0).poll_write(cx, buf)
+        }
+        fn poll_flush(mut self: Pin<&mut Self>, cx: &mut Context<'_>) -> Poll<io::Result<()>> {
+            Pin::new(&mut self.0).poll_flush(cx)
+        }
+        fn poll_shutdown(mut self: Pin<&mut Self>, cx: &mut Context<'_>) -> Poll<io::Result<()>> {
+            Pin::new(&mut self.0).poll_shutdown(cx)
+        }
+    }
+
+    pub async fn connect_async_with_config<R: IntoClientRequest + Unpin>(
+        request: R,
+        config: Option<WebSocketConfig>,
+        disable_nagle: bool,
+    ) -> Result<(WebSocketStream<MaybeTlsStream<TcpStream>>, Response), tungstenite::Error> {
+        let request = request.into_client_request()?;
+        let host = request
+            .uri()
+            .host()
+            .ok_or(tungstenite::Error::Url(tungstenite::error::UrlError::NoHostName))?
+            .to_string();
+        let port = request.uri().port_u16().unwrap_or(80);
+        let stream = TcpStream::connect((host.as_str(), port))
+            .await
+            .map_err(tungstenite::Error::Io)?;
+        if disable_nagle {
+            let _ = stream.set_nodelay(true);
+        }
+        tokio_tungstenite::client_async_with_config(request, MaybeTlsStream(stream), config).await
+    }
+}
